@@ -335,17 +335,26 @@ def edit_check(ctx, prop, which):
             if confirm_edit(ctx, rp):
                 seen.add(v["what"])
                 ctx.add_violation("%s: %s | observed: %s | text: %r" % (prop, v["what"], json.dumps(o["obs"])[:300], o["text"][:300]), rp)
+                continue
+            # what is said about a text may depend on the texts the same process handled just before (a cache keyed by a digest of
+            # the text, a pool): the candidate is then replayed in a fresh process after the documents that preceded it
+            mk = lambda x: dict(id=x["id"], text=x["text"], lines=x["lines"], lexok=x["lexok"], accepts=x["accepts"], unspec=x.get("unspec", False), ntoks=0)
+            rp = dict(rp, history=[mk(obs[j]) for j in range(max(0, v["id"] - 300), v["id"])])
+            if confirm_edit(ctx, rp):
+                seen.add(v["what"])
+                ctx.add_violation("%s: %s (only after the %d preceding documents were handled by the same process) | observed: %s | text: %r" % (prop, v["what"], len(rp["history"]), json.dumps(o["obs"])[:300], o["text"][:300]), rp)
             else:
                 raise Infra("candidate did not reproduce: %s" % v)
 
 
 def confirm_edit(ctx, rp):
     p = os.path.join(ctx.work, "cand%d" % len(os.listdir(ctx.work)))
-    open(p + ".in", "w").write(json.dumps(rp["case"]) + "\n")
+    hist = rp.get("history", [])
+    open(p + ".in", "w").write("".join(json.dumps(x) + "\n" for x in hist + [rp["case"]]))
     ctx.vh_json(["edit-check", p + ".in", p + ".out", rp["which"]])
     r = ctx.tlc_trace("EditTrace", "EditTrace_%s.cfg" % rp["property"], p + ".out", label="confirmation")
-    rp["observed_again"] = read_ndjson(p + ".out")
-    return [v for v in r["viols"] if v["prop"] == rp["property"]]
+    rp["observed_again"] = read_ndjson(p + ".out")[-1:]
+    return [v for v in r["viols"] if v["prop"] == rp["property"] and v["id"] == len(hist)]
 
 
 def rerun_generic(ctx, rp):
